@@ -408,7 +408,7 @@ def run(st, tier, seed):
     rng = core.rng_for(seed, "c19")
     n_runs = 200 if quick else 3000
     n_tiny = 60 if quick else 700
-    cap = 20.0 if quick else 60.0
+    cap = 10.0 if quick else 60.0
     cases = []
     for i in range(n_runs):
         if i < n_tiny:
